@@ -1,4 +1,719 @@
-/-! Model/C19 — executable model (core Lean only; imports only NibabelModel.Basic.* / other Model files). -/
+/-
+  Model/C19 — executable model of the FreeSurfer surface / morphometry / annotation codecs and of the
+  MGH header shape/zoom logic (core Lean only).
+
+  Python source modelled (working tree after the `fix:` commits):
+  * nibabel/freesurfer/io.py
+      _fread3 20-34 (`rdMagic3`), _read_volume_info 54-76 (`rdVolInfo`), _pack_rgb 79-96 (`packRgb`),
+      read_geometry 99-192 triangle branch (`readGeometry`), write_geometry 195-241 (`writeGeometry`),
+      read_morph_data 244-271 new-format branch (`readMorph`), write_morph_data 274-315 (`writeMorph`),
+      read_annot 318-390 + _read_annot_ctab_new_format 438-488 (`readAnnot`), write_annot 491-566
+      (`writeAnnot`; the logic before the fix `np.max(labels, initial=-1)` is `writeAnnotOrig`),
+      _serialize_volume_info 594-619 (`serializeVolInfo`).
+  * nibabel/freesurfer/mghformat.py
+      MGHHeader.from_fileobj 156-175 + __init__ 104-127 (`readMgh`), _ndims 234-244 (`ndims`),
+      get_zooms 246-265 (`getZooms`), set_zooms 267-293 (`setZooms`), get_data_shape 295-302
+      (`getDataShape`), set_data_shape 304-316 (`setDataShape`), get_footer_offset 318-334
+      (`footerOffset`), writehdr_to/writeftr_to 387-425 + MGHImage.__init__ 478-482, to_file_map
+      537-559, _write_data 561-581 (`writeMgh`, `mghSaveLoad`).
+
+  Conventions
+  * a byte string is `List Nat` (every element < 256); all multi-byte numbers are big endian;
+  * a `>f4` value is its raw 32-bit pattern (`Nat < 2^32`); the float64→float32 cast of the writers and
+    the float32→float64 widening of the readers are NumPy's (external; the harness feeds float32-exact
+    values so both are the identity on patterns);
+  * text: the create stamp and the annotation names are byte strings (UTF-8 encode/decode is CPython's);
+    the volume-info text lines are modelled for ASCII text only (`str.strip/split` whitespace on
+    non-ASCII code points is not modelled); number ↔ text conversion of the volume-info values
+    (`f'{v:.10g}'`, `int()`, `float()`) is external: the model carries the value TOKENS;
+  * old-format files (quad surfaces, old morph files, old colour tables) are never written by the
+    library and are refused by the model with `Err.unmodelled`.
+-/
+import NibabelModel.Generated.C19
 namespace Nb.C19
+open Nb.Gen.C19
+
+abbrev Bytes := List Nat
+
+/-- exception classes observable at the API -/
+inductive Err where
+  | short       -- file ended early (np.fromfile returned fewer items → IndexError / ValueError later)
+  | value       -- ValueError
+  | index       -- IndexError
+  | overflow    -- OverflowError
+  | os          -- OSError
+  | exc         -- bare Exception (read_annot)
+  | hdrData     -- HeaderDataError
+  | mgh         -- MGHError
+  | key         -- KeyError
+  | unmodelled  -- input outside the modelled domain
+  deriving DecidableEq, Repr
+
+deriving instance DecidableEq for Except
+
+/-! ## big-endian 32-bit codec -/
+
+def encU32 (u : Nat) : Bytes := [u / 16777216 % 256, u / 65536 % 256, u / 256 % 256, u % 256]
+def decU32 (a b c d : Nat) : Nat := a * 16777216 + b * 65536 + c * 256 + d
+/-- two's-complement pattern of an integer (`astype('>i4')` wraps) -/
+def toU32 (v : Int) : Nat := (v % 4294967296).toNat
+def ofU32 (u : Nat) : Int := if u < 2147483648 then (u : Int) else (u : Int) - 4294967296
+def encI32 (v : Int) : Bytes := encU32 (toU32 v)
+def wrap32 (v : Int) : Int := ofU32 (toU32 v)
+def inI32 (v : Int) : Bool := decide (-2147483648 ≤ v) && decide (v < 2147483648)
+
+def encU32s : List Nat → Bytes
+  | [] => []
+  | x :: xs => encU32 x ++ encU32s xs
+
+def encI32s : List Int → Bytes
+  | [] => []
+  | x :: xs => encI32 x ++ encI32s xs
+
+def rdU32 : Bytes → Except Err (Nat × Bytes)
+  | a :: b :: c :: d :: r => .ok (decU32 a b c d, r)
+  | _ => .error .short
+
+def rdI32 (bs : Bytes) : Except Err (Int × Bytes) :=
+  match rdU32 bs with
+  | .ok (u, r) => .ok (ofU32 u, r)
+  | .error e => .error e
+
+def rdU32s : Nat → Bytes → Except Err (List Nat × Bytes)
+  | 0, bs => .ok ([], bs)
+  | n + 1, bs =>
+    match rdU32 bs with
+    | .ok (x, r) =>
+      match rdU32s n r with
+      | .ok (xs, r') => .ok (x :: xs, r')
+      | .error e => .error e
+    | .error e => .error e
+
+def rdI32s : Nat → Bytes → Except Err (List Int × Bytes)
+  | 0, bs => .ok ([], bs)
+  | n + 1, bs =>
+    match rdI32 bs with
+    | .ok (x, r) =>
+      match rdI32s n r with
+      | .ok (xs, r') => .ok (x :: xs, r')
+      | .error e => .error e
+    | .error e => .error e
+
+/-- `np.fromfile(fobj, '|S<n>', 1)[0]` raw bytes / `fobj.read(n)` of exactly n bytes -/
+def rdBytes (n : Nat) (bs : Bytes) : Except Err (Bytes × Bytes) :=
+  if bs.length < n then .error .short else .ok (bs.take n, bs.drop n)
+
+/-- `_fread3`: 3-byte big-endian magic -/
+def rdMagic3 : Bytes → Except Err (Nat × Bytes)
+  | a :: b :: c :: r => .ok (a * 65536 + b * 256 + c, r)
+  | _ => .error .short
+
+/-! ## text lines -/
+
+/-- `fobj.readline()`: up to and including the first `\n` -/
+def readLine : Bytes → Bytes × Bytes
+  | [] => ([], [])
+  | b :: r => if b = 10 then ([10], r) else ((b :: (readLine r).1), (readLine r).2)
+
+/-- `.rstrip(b'\n')` -/
+def rstripNl (l : Bytes) : Bytes := (l.reverse.dropWhile (· == 10)).reverse
+
+/-- `str.isspace` on ASCII code points -/
+def isWs (b : Nat) : Bool := b == 32 || (decide (9 ≤ b) && decide (b ≤ 13)) || (decide (28 ≤ b) && decide (b ≤ 31))
+
+/-- `str.strip()` (ASCII) -/
+def strip (l : Bytes) : Bytes := ((l.dropWhile isWs).reverse.dropWhile isWs).reverse
+
+/-- `str.split()` (ASCII): maximal runs of non-whitespace -/
+def wordsGo : Bytes → Bytes → List Bytes
+  | cur, [] => if cur = [] then [] else [cur]
+  | cur, b :: r =>
+    if isWs b then (if cur = [] then wordsGo [] r else cur :: wordsGo [] r)
+    else wordsGo (cur ++ [b]) r
+def words (l : Bytes) : List Bytes := wordsGo [] l
+
+/-- split at the first occurrence of `c` -/
+def splitFirst (c : Nat) : Bytes → Bytes × Option Bytes
+  | [] => ([], none)
+  | b :: r => if b = c then ([], some r) else (b :: (splitFirst c r).1, (splitFirst c r).2)
+
+/-! ## geometry (triangle surfaces) -/
+
+def kHead : Bytes := [104, 101, 97, 100]
+def kValid : Bytes := [118, 97, 108, 105, 100]
+def kFilename : Bytes := [102, 105, 108, 101, 110, 97, 109, 101]
+def kVolume : Bytes := [118, 111, 108, 117, 109, 101]
+def kVoxelsize : Bytes := [118, 111, 120, 101, 108, 115, 105, 122, 101]
+def kXras : Bytes := [120, 114, 97, 115]
+def kYras : Bytes := [121, 114, 97, 115]
+def kZras : Bytes := [122, 114, 97, 115]
+def kCras : Bytes := [99, 114, 97, 115]
+
+/-- volume-info dictionary: `head` ints, two strings, six 3-vectors as value tokens (text) -/
+structure VolInfo where
+  head : List Int
+  valid : Bytes
+  filename : Bytes
+  volume : List Bytes
+  voxelsize : List Bytes
+  xras : List Bytes
+  yras : List Bytes
+  zras : List Bytes
+  cras : List Bytes
+  deriving DecidableEq, Repr
+
+/-- `f'{key} = {val}\n'` -/
+def kvLine (k v : Bytes) : Bytes := k ++ (32 :: 61 :: 32 :: (v ++ [10]))
+/-- `f'{key:6s}'` -/
+def padKey (k : Bytes) : Bytes := k ++ List.replicate (6 - k.length) 32
+/-- `f'{val[0]} {val[1]} {val[2]}'` (IndexError when fewer than three values; extra values ignored) -/
+def join3 : List Bytes → Except Err Bytes
+  | a :: b :: c :: _ => .ok (a ++ (32 :: (b ++ (32 :: c))))
+  | _ => .error .index
+
+/-- `_serialize_volume_info` (io.py:594-619) for a dictionary holding exactly the nine known keys -/
+def serializeVolInfo (vi : VolInfo) : Except Err Bytes :=
+  match join3 vi.volume, join3 vi.voxelsize, join3 vi.xras, join3 vi.yras, join3 vi.zras, join3 vi.cras with
+  | .ok vol, .ok vox, .ok xr, .ok yr, .ok zr, .ok cr =>
+    if vi.head.all inI32 then
+      .ok (encI32s vi.head ++ (kvLine kValid vi.valid ++ (kvLine kFilename vi.filename ++ (kvLine kVolume vol ++
+        (kvLine (padKey kVoxelsize) vox ++ (kvLine (padKey kXras) xr ++ (kvLine (padKey kYras) yr ++
+        (kvLine (padKey kZras) zr ++ kvLine (padKey kCras) cr))))))))
+    else .error .overflow
+  | _, _, _, _, _, _ => .error .index
+
+/-- one `key = value` line of `_read_volume_info`: `pair = line.split('=')`; OSError unless
+    `len(pair) == 2` and `pair[0].strip() == key`; returns `pair[1]` -/
+def parseKV (key line : Bytes) : Except Err Bytes :=
+  match splitFirst 61 line with
+  | (k, some v) => if v.contains 61 then .error .os else if strip k = key then .ok v else .error .os
+  | (_, none) => .error .os
+
+/-- the head of the footer: `[20]` or `[2, 0, 20]`; anything else (incl. end of file) → warning and
+    an empty dictionary (`none`) -/
+def rdVolHead (bs : Bytes) : Option (List Int) × Bytes :=
+  match rdI32 bs with
+  | .ok (h0, r) =>
+    if h0 = 20 then (some [20], r)
+    else match rdI32 r with
+      | .ok (h1, r1) =>
+        match rdI32 r1 with
+        | .ok (h2, r2) => if h0 = 2 ∧ h1 = 0 ∧ h2 = 20 then (some [2, 0, 20], r2) else (none, r2)
+        | .error _ => (none, r1)
+      | .error _ => (none, r)
+  | .error _ => (none, bs)
+
+/-- `_read_volume_info` (io.py:54-76); `none` = empty dictionary -/
+def rdVolInfo (bs : Bytes) : Except Err (Option VolInfo) :=
+  match rdVolHead bs with
+  | (none, _) => .ok none
+  | (some head, r0) =>
+    let l1 := readLine r0
+    let l2 := readLine l1.2
+    let l3 := readLine l2.2
+    let l4 := readLine l3.2
+    let l5 := readLine l4.2
+    let l6 := readLine l5.2
+    let l7 := readLine l6.2
+    let l8 := readLine l7.2
+    match parseKV kValid l1.1, parseKV kFilename l2.1, parseKV kVolume l3.1, parseKV kVoxelsize l4.1,
+          parseKV kXras l5.1, parseKV kYras l6.1, parseKV kZras l7.1, parseKV kCras l8.1 with
+    | .ok v1, .ok v2, .ok v3, .ok v4, .ok v5, .ok v6, .ok v7, .ok v8 =>
+      .ok (some { head := head, valid := strip v1, filename := strip v2, volume := words v3,
+                  voxelsize := words v4, xras := words v5, yras := words v6, zras := words v7,
+                  cras := words v8 })
+    | _, _, _, _, _, _, _, _ => .error .os
+
+/-- what `read_geometry(..., read_metadata, read_stamp=True)` returns -/
+structure Geom where
+  stamp : Bytes
+  nv : Nat
+  nf : Nat
+  coords : List Nat      -- 3*nv float32 patterns, row major
+  faces : List Int       -- 3*nf
+  vol : Option VolInfo   -- `none` = empty dictionary (or read_metadata=False)
+  deriving DecidableEq, Repr
+
+/-- `write_geometry` (io.py:195-241).  `coords` is the (nv, 3) array after `astype('>f4')` as row-major
+    patterns, `faces` the (nf, 3) integer array; `vol = none` for `volume_info` None/empty. -/
+def writeGeometry (stamp : Bytes) (nv nf : Nat) (coords : List Nat) (faces : List Int)
+    (vol : Option VolInfo) : Except Err Bytes :=
+  if nv ≥ 2147483648 ∨ nf ≥ 2147483648 then .error .overflow else
+  let body := geomMagicBytes ++ (stamp ++ (10 :: 10 :: (encU32 nv ++ (encU32 nf ++ (encU32s coords ++ encI32s faces)))))
+  match vol with
+  | none => .ok body
+  | some vi =>
+    match serializeVolInfo vi with
+    | .ok f => .ok (body ++ f)
+    | .error e => .error e
+
+/-- `read_geometry` (io.py:99-192), triangle branch.  `vnum * 3` is evaluated by NumPy in int32: counts
+    with `3 * vnum ≥ 2^31` overflow (RuntimeWarning, negative count) — refused here as unmodelled. -/
+def readGeometry (readMeta : Bool) (bs : Bytes) : Except Err Geom :=
+  match rdMagic3 bs with
+  | .error e => .error e
+  | .ok (magic, r0) =>
+    if magic = quadMagic ∨ magic = newQuadMagic then .error .unmodelled
+    else if magic ≠ triangleMagic then .error .value
+    else
+      let l1 := readLine r0
+      let l2 := readLine l1.2
+      match rdI32 l2.2 with
+      | .error e => .error e
+      | .ok (vnum, r1) =>
+        match rdI32 r1 with
+        | .error e => .error e
+        | .ok (fnum, r2) =>
+          if vnum < 0 ∨ fnum < 0 ∨ 3 * vnum ≥ 2147483648 ∨ 3 * fnum ≥ 2147483648 then .error .unmodelled
+          else
+            match rdU32s (3 * vnum.toNat) r2 with
+            | .error e => .error e
+            | .ok (coords, r3) =>
+              match rdI32s (3 * fnum.toNat) r3 with
+              | .error e => .error e
+              | .ok (faces, r4) =>
+                if readMeta then
+                  match rdVolInfo r4 with
+                  | .ok vol => .ok ⟨rstripNl l1.1, vnum.toNat, fnum.toNat, coords, faces, vol⟩
+                  | .error e => .error e
+                else .ok ⟨rstripNl l1.1, vnum.toNat, fnum.toNat, coords, faces, none⟩
+
+/-! ## morphometry ("curv") -/
+
+def prod : List Nat → Nat
+  | [] => 1
+  | x :: xs => x * prod xs
+
+/-- `vector.shape in ((vnum,), (vnum, 1), (1, vnum), (vnum, 1, 1))` with `vnum = np.prod(shape)` -/
+def morphAccepts (shape : List Nat) : Bool :=
+  let v := prod shape
+  shape == [v] || shape == [v, 1] || shape == [1, v] || shape == [v, 1, 1]
+
+/-- `write_morph_data` (io.py:274-315); `vals` = the array after `astype('>f4')`, C order -/
+def writeMorph (shape : List Nat) (vals : List Nat) (fnum : Int) : Except Err Bytes :=
+  if !morphAccepts shape then .error .value
+  else if prod shape > 2147483647 then .error .value
+  else if !inI32 fnum then .error .value
+  else .ok (morphMagicBytes ++ (encI32 (prod shape) ++ (encI32 fnum ++ (encI32 1 ++ encU32s vals))))
+
+/-- `read_morph_data` (io.py:244-271), new-format branch -/
+def readMorph (bs : Bytes) : Except Err (List Nat) :=
+  match rdMagic3 bs with
+  | .error e => .error e
+  | .ok (magic, r0) =>
+    if magic ≠ morphMagic then .error .unmodelled
+    else
+      match rdI32s 3 r0 with
+      | .error e => .error e
+      | .ok (hd, r1) =>
+        match hd with
+        | vnum :: _ =>
+          if vnum < 0 then .error .unmodelled
+          else match rdU32s vnum.toNat r1 with
+            | .ok (vals, _) => .ok vals
+            | .error e => .error e
+        | [] => .error .short
+
+/-! ## annotations -/
+
+/-- one colour-table row `R, G, B, T, annotation value` -/
+structure Row where
+  r : Int
+  g : Int
+  b : Int
+  t : Int
+  a : Int
+  deriving DecidableEq, Repr
+
+/-- `_pack_rgb` (io.py:79-96) on one row -/
+def packRgb (r g b : Int) : Int := r + g * 256 + b * 65536
+
+/-- NumPy / Python integer indexing with negative wrap-around -/
+def indexPy {α} (l : List α) (i : Int) : Except Err α :=
+  let j : Int := if i < 0 then i + l.length else i
+  if j < 0 then .error .index
+  else match l[j.toNat]? with
+    | some x => .ok x
+    | none => .error .index
+
+/-- `ctab = np.hstack((ctab[:, :4], _pack_rgb(ctab[:, :3])))` / the given 5-column table.
+    `has5` = the caller's table has a fifth column (`ctab[:, [4]]` raises IndexError otherwise). -/
+def fillCtab (fill has5 : Bool) (ctab : List Row) : Except Err (List Row) :=
+  if fill then .ok (ctab.map fun c => { c with a := packRgb c.r c.g c.b })
+  else if has5 then .ok ctab else .error .index
+
+/-- `clut_labels = ctab[:, -1][labels]; clut_labels[labels == -1] = 0` for one label -/
+def clutLabel (avals : List Int) (l : Int) : Except Err Int :=
+  match indexPy avals l with
+  | .ok a => .ok (if l = -1 then 0 else a)
+  | .error e => .error e
+
+def clutLabels (avals : List Int) : List Int → Except Err (List Int)
+  | [] => .ok []
+  | l :: ls =>
+    match clutLabel avals l with
+    | .ok c =>
+      match clutLabels avals ls with
+      | .ok cs => .ok (c :: cs)
+      | .error e => .error e
+    | .error e => .error e
+
+/-- `np.vstack((range(vnum), clut_labels)).T.astype('>i4')` written row by row, starting at vertex `i` -/
+def encVtx (i : Nat) : List Int → Bytes
+  | [] => []
+  | c :: cs => encI32 i ++ (encI32 c ++ encVtx (i + 1) cs)
+
+/-- `write_string` -/
+def writeString (s : Bytes) : Bytes := encI32 (s.length + 1) ++ (s ++ [0])
+
+/-- the loop `for ind, (clu, name) in enumerate(zip(ctab, names))` (zip stops at the shorter one);
+    `write(val)` raises OverflowError for a value outside int32 -/
+def encEntries (i : Nat) : List Row → List Bytes → Except Err Bytes
+  | c :: cs, nm :: nms =>
+    if inI32 c.r && inI32 c.g && inI32 c.b && inI32 c.t then
+      match encEntries (i + 1) cs nms with
+      | .ok rest => .ok (encI32 i ++ (writeString nm ++ (encI32 c.r ++ (encI32 c.g ++ (encI32 c.b ++ (encI32 c.t ++ rest))))))
+      | .error e => .error e
+    else .error .overflow
+  | _, _ => .ok []
+
+/-- `np.max(labels, initial=-1)` -/
+def labelsMax (labels : List Int) : Int := labels.foldl max (-1)
+
+/-- `np.max(labels)` of the ORIGINAL code: ValueError on an empty array -/
+def labelsMaxOrig : List Int → Except Err Int
+  | [] => .error .value
+  | l :: ls => .ok (ls.foldl max l)
+
+def writeAnnotWith (mx : Except Err Int) (labels : List Int) (ctab : List Row) (has5 : Bool)
+    (names : List Bytes) (fill : Bool) : Except Err Bytes :=
+  match fillCtab fill has5 ctab with
+  | .error e => .error e
+  | .ok ctab' =>
+    match clutLabels (ctab'.map (·.a)) labels with
+    | .error e => .error e
+    | .ok cl =>
+      match mx with
+      | .error e => .error e
+      | .ok m =>
+        match encEntries 0 ctab' names with
+        | .error e => .error e
+        | .ok ents =>
+          .ok (encI32 labels.length ++ (encVtx 0 cl ++ (encI32 1 ++ (encI32 (-2) ++
+            (encI32 (max (m + 1) ctab'.length) ++ (writeString noFile ++ (encI32 ctab'.length ++ ents)))))))
+
+/-- `write_annot` (io.py:491-566), repaired tree -/
+def writeAnnot (labels : List Int) (ctab : List Row) (has5 : Bool) (names : List Bytes) (fill : Bool) :
+    Except Err Bytes :=
+  writeAnnotWith (.ok (labelsMax labels)) labels ctab has5 names fill
+
+/-- `write_annot` before the fix (`np.max(labels)` without `initial`) -/
+def writeAnnotOrig (labels : List Int) (ctab : List Row) (has5 : Bool) (names : List Bytes) (fill : Bool) :
+    Except Err Bytes :=
+  writeAnnotWith (labelsMaxOrig labels) labels ctab has5 names fill
+
+/-- `np.fromfile(fobj, dt, vnum * 2).reshape(vnum, 2)[:, 1]` -/
+def rdVtx : Nat → Bytes → Except Err (List Int × Bytes)
+  | 0, bs => .ok ([], bs)
+  | n + 1, bs =>
+    match rdI32 bs with
+    | .error e => .error e
+    | .ok (_, r) =>
+      match rdI32 r with
+      | .error e => .error e
+      | .ok (c, r1) =>
+        match rdVtx n r1 with
+        | .ok (cs, r2) => .ok (c :: cs, r2)
+        | .error e => .error e
+
+/-- a NumPy `|S<n>` scalar drops trailing NUL bytes -/
+def stripNul (s : Bytes) : Bytes := (s.reverse.dropWhile (· == 0)).reverse
+
+/-- length-prefixed string record -/
+def rdString (bs : Bytes) : Except Err (Bytes × Bytes) :=
+  match rdI32 bs with
+  | .error e => .error e
+  | .ok (len, r) => if len < 0 then .error .value else rdBytes len.toNat r
+
+/-- `ctab[idx, :4] = rgbt` -/
+def setRow (ctab : List Row) (idx : Int) (r g b t : Int) : Except Err (List Row) :=
+  let j : Int := if idx < 0 then idx + ctab.length else idx
+  if j < 0 ∨ j ≥ ctab.length then .error .index
+  else .ok (ctab.set j.toNat ⟨r, g, b, t, 0⟩)
+
+/-- the entry loop of `_read_annot_ctab_new_format` -/
+def rdEntries : Nat → Bytes → List Row → Except Err (List Row × List Bytes)
+  | 0, _, ctab => .ok (ctab, [])
+  | k + 1, bs, ctab =>
+    match rdI32 bs with
+    | .error e => .error e
+    | .ok (idx, r0) =>
+      match rdString r0 with
+      | .error e => .error e
+      | .ok (nm, r1) =>
+        match rdI32s 4 r1 with
+        | .ok ([r, g, b, t], r2) =>
+          match setRow ctab idx r g b t with
+          | .error e => .error e
+          | .ok ctab' =>
+            match rdEntries k r2 ctab' with
+            | .ok (ctabF, nms) => .ok (ctabF, stripNul nm :: nms)
+            | .error e => .error e
+        | .ok _ => .error .short
+        | .error e => .error e
+
+/-- stable argsort (NumPy's default sort is not stable; the two agree when the values are pairwise
+    distinct, which is the property's domain): pairs `(value, row)` sorted by value -/
+def sortedPairs (vals : List Int) : List (Int × Nat) :=
+  vals.zipIdx.mergeSort (fun p q => decide (p.1 ≤ q.1))
+
+/-- `np.searchsorted(sorted, v)` (side='left') on a sorted array: index of the first element ≥ v -/
+def searchsortedLeft (sorted : List Int) (v : Int) : Nat := (sorted.takeWhile (· < v)).length
+
+/-- `labels[~mask] = -1; labels[mask] = ord[np.searchsorted(ctab[ord, -1], labels[mask])]` for one
+    annotation value; `ord = argsort(ctab[:, -1])`, `ctab[ord, -1]` = the sorted values -/
+def backMap (avals : List Int) (lab : Int) : Except Err Int :=
+  if lab = 0 then .ok (-1)
+  else
+    let sp := sortedPairs avals
+    let ord : List Nat := sp.map (·.2)
+    match ord[searchsortedLeft (sp.map (·.1)) lab]? with
+    | some i => .ok (i : Int)
+    | none => .error .index
+
+def backMaps (avals : List Int) : List Int → Except Err (List Int)
+  | [] => .ok []
+  | l :: ls =>
+    match backMap avals l with
+    | .ok c =>
+      match backMaps avals ls with
+      | .ok cs => .ok (c :: cs)
+      | .error e => .error e
+    | .error e => .error e
+
+/-- what `read_annot` returns -/
+structure Annot where
+  labels : List Int
+  ctab : List Row
+  names : List Bytes
+  deriving DecidableEq, Repr
+
+/-- `read_annot` (io.py:318-390) with `_read_annot_ctab_new_format` (438-488) -/
+def readAnnot (origIds : Bool) (bs : Bytes) : Except Err Annot :=
+  match rdI32 bs with
+  | .error e => .error e
+  | .ok (vnum, r0) =>
+    if vnum < 0 then .error .unmodelled else
+    match rdVtx vnum.toNat r0 with
+    | .error e => .error e
+    | .ok (vals, r1) =>
+      match rdI32 r1 with
+      | .error e => .error e
+      | .ok (ctabExists, r2) =>
+        if ctabExists = 0 then .error .exc else
+        match rdI32 r2 with
+        | .error e => .error e
+        | .ok (nEntries, r3) =>
+          if nEntries > 0 then .error .unmodelled
+          else if -nEntries ≠ 2 then .error .exc
+          else
+            match rdI32 r3 with
+            | .error e => .error e
+            | .ok (maxIndex, r4) =>
+              if maxIndex < 0 then .error .value else
+              match rdString r4 with
+              | .error e => .error e
+              | .ok (_, r5) =>
+                match rdI32 r5 with
+                | .error e => .error e
+                | .ok (nRead, r6) =>
+                  match rdEntries nRead.toNat r6 (List.replicate maxIndex.toNat ⟨0, 0, 0, 0, 0⟩) with
+                  | .error e => .error e
+                  | .ok (ctab0, names) =>
+                    let ctab := ctab0.map fun c => { c with a := wrap32 (packRgb c.r c.g c.b) }
+                    if origIds then .ok ⟨vals, ctab, names⟩
+                    else
+                      match backMaps (ctab.map (·.a)) vals with
+                      | .ok labels => .ok ⟨labels, ctab, names⟩
+                      | .error e => .error e
+
+/-! ## MGH header: shape, zooms, footer offset -/
+
+/-- the `dims` field (always four entries) -/
+structure Dims where
+  x : Nat
+  y : Nat
+  z : Nat
+  f : Nat
+  deriving DecidableEq, Repr
+
+def Dims.toList (d : Dims) : List Nat := [d.x, d.y, d.z, d.f]
+def Dims.prod (d : Dims) : Nat := d.x * d.y * d.z * d.f
+
+/-- header state relevant to C19: dims, type code, delta (3 patterns), footer (tr, flip_angle, te, ti,
+    fov as patterns) -/
+structure MghHdr where
+  dims : Dims
+  code : Nat
+  delta : List Nat
+  ftr : List Nat
+  deriving DecidableEq, Repr
+
+/-- `MGHImage.__init__`: `shape + (1,) * (3 - len(shape))` -/
+def padShape3 (s : List Nat) : List Nat := s ++ List.replicate (3 - s.length) 1
+
+/-- `set_data_shape` (mghformat.py:304-316): dims part -/
+def setDataShape : List Nat → Except Err Dims
+  | [] => .ok ⟨1, 1, 1, 1⟩
+  | [a] => .ok ⟨a, 1, 1, 1⟩
+  | [a, b] => .ok ⟨a, b, 1, 1⟩
+  | [a, b, c] => .ok ⟨a, b, c, 1⟩
+  | [a, b, c, d] => .ok ⟨a, b, c, d⟩
+  | _ => .error .value
+
+/-- `_ndims` (234-244) -/
+def ndims (d : Dims) : Nat := 3 + (if d.f > 1 then 1 else 0)
+
+/-- `get_data_shape` (295-302) -/
+def getDataShape (d : Dims) : List Nat := if d.f = 1 then [d.x, d.y, d.z] else [d.x, d.y, d.z, d.f]
+
+def f32IsNaN (u : Nat) : Bool := decide (u % 2147483648 > 2139095040)
+/-- `x <= 0` on a float32 pattern -/
+def f32LeZero (u : Nat) : Bool := !f32IsNaN u && (decide (u ≥ 2147483648) || u == 0)
+/-- `x < 0` on a float32 pattern -/
+def f32LtZero (u : Nat) : Bool := !f32IsNaN u && decide (u > 2147483648)
+
+def ftrTr (h : MghHdr) : Nat := h.ftr.headD 0
+
+/-- `get_zooms` (246-265) -/
+def getZooms (h : MghHdr) : List Nat := h.delta ++ (if ndims h.dims > 3 then [ftrTr h] else [])
+
+/-- `set_zooms` (267-293).  `hdr['delta'] = zooms[:3]` broadcasts a single value and raises ValueError
+    for 0 or 2 values. -/
+def setZooms (h : MghHdr) (zs : List Nat) : Except Err MghHdr :=
+  if zs.length > ndims h.dims then .error .hdrData
+  else if (zs.take 3).any f32LeZero then .error .hdrData
+  else
+    match zs with
+    | [a] => .ok { h with delta := [a, a, a] }
+    | [a, b, c] => .ok { h with delta := [a, b, c] }
+    | [a, b, c, t] =>
+      if f32LtZero t then .error .hdrData
+      else .ok { h with delta := [a, b, c], ftr := t :: h.ftr.drop 1 }
+    | _ => .error .value
+
+def bytesPerVox (code : Nat) : Option Nat :=
+  (typeCodes.find? (fun e => e.2.1 == code)).map (·.2.2)
+
+def codeOfDtype (dt : String) : Option Nat :=
+  (typeCodes.find? (fun e => e.1 == dt)).map (·.2.1)
+
+/-- `get_footer_offset` (330-334) = `get_data_offset() + get_data_bytespervox() * prod(dims)` -/
+def footerOffset (bpv : Nat) (d : Dims) : Nat := dataOffset + bpv * d.prod
+
+/-- one data element of width `w` ∈ {1,2,4} as big-endian bytes -/
+def encW (w v : Nat) : Bytes :=
+  if w = 1 then [v % 256] else if w = 2 then [v / 256 % 256, v % 256] else encU32 v
+
+def encWs (w : Nat) : List Nat → Bytes
+  | [] => []
+  | x :: xs => encW w x ++ encWs w xs
+
+def decBE (bs : Bytes) : Nat := bs.foldl (fun a b => a * 256 + b) 0
+
+/-- n elements of width w -/
+def rdWs (w : Nat) : Nat → Bytes → Except Err (List Nat)
+  | 0, _ => .ok []
+  | n + 1, bs =>
+    if bs.length < w then .error .os
+    else match rdWs w n (bs.drop w) with
+      | .ok xs => .ok (decBE (bs.take w) :: xs)
+      | .error e => .error e
+
+def zeros (n : Nat) : Bytes := List.replicate n 0
+
+/-- file image written by `to_file_map`: `writehdr_to` (the 90 header bytes; `Mdc`/`Pxyz_c`, which belong
+    to property C04, are carried as the 48 bytes `ras`), zero fill up to DATA_OFFSET (`array_to_file` seeks
+    with `write0`), data in Fortran order, `writeftr_to` at the footer offset -/
+def writeMgh (h : MghHdr) (ras : Bytes) (bpv : Nat) (data : List Nat) : Bytes :=
+  encU32 defVersion ++ (encU32s h.dims.toList ++ (encU32 h.code ++ (encU32 defDof ++ ([0, defGoodRAS] ++
+    (encU32s h.delta ++ (ras ++ (zeros (dataOffset - hdrItemsize) ++ (encWs bpv data ++ encU32s h.ftr))))))))
+
+/-- right zero-pad / truncate to n bytes (`MGHHeader.__init__`) -/
+def padTo (n : Nat) (bs : Bytes) : Bytes := bs.take n ++ zeros (n - bs.length)
+
+/-- `MGHHeader.from_fileobj` + `data_from_fileobj`; returns header and data elements (Fortran order) -/
+def readMgh (bs : Bytes) : Except Err (MghHdr × List Nat) :=
+  if bs.length < hdrItemsize then .error .value else
+  match rdU32 bs with
+  | .error e => .error e
+  | .ok (version, r0) =>
+    match rdU32s 4 r0 with
+    | .ok ([x, y, z, f], r1) =>
+      if x = 0 ∨ y = 0 ∨ z = 0 ∨ f = 0 then .error .mgh else
+      match rdU32 r1 with
+      | .error e => .error e
+      | .ok (code, _) =>
+        match bytesPerVox code with
+        | none => .error .key
+        | some bpv =>
+          let d : Dims := ⟨x, y, z, f⟩
+          let good := decBE ((bs.drop 28).take 2)
+          match rdU32s 3 (bs.drop 30) with
+          | .error e => .error e
+          | .ok (delta, _) =>
+            match rdU32s 5 (padTo ftrItemsize (bs.drop (footerOffset bpv d))) with
+            | .error e => .error e
+            | .ok (ftr, _) =>
+              if version ≠ 1 then .error .hdrData else
+              let delta' := if good = 0 then [1065353216, 1065353216, 1065353216] else delta
+              match rdWs bpv d.prod (bs.drop dataOffset) with
+              | .error e => .error e
+              | .ok data => .ok (⟨d, code, delta', ftr⟩, data)
+    | .ok _ => .error .short
+    | .error e => .error e
+
+/-- `hdr[field] = value` for the footer fields, index 0..4 -/
+def setFtr (h : MghHdr) (sets : List (Nat × Nat)) : MghHdr :=
+  sets.foldl (fun h s => { h with ftr := h.ftr.set s.1 s.2 }) h
+
+structure MghOut where
+  hz : List Nat          -- header.get_zooms() before saving
+  file : Bytes
+  shape : List Nat       -- loaded.shape
+  code : Nat
+  zooms : List Nat       -- loaded.header.get_zooms()
+  ftr : List Nat
+  data : List Nat
+  deriving DecidableEq, Repr
+
+/-- `img = MGHImage(data, affine)`; optional `img.header.set_zooms(zs)`; footer assignments;
+    `save`; `load`.  `affDelta` = float32(voxel_sizes(affine)) (external); on save `update_header`
+    re-derives `delta` from the affine unless the header affine is `allclose` to it, so the saved delta
+    is `affDelta` (generators keep `zs[:3]` either equal to it or far from it). -/
+def mghSaveLoad (shape : List Nat) (dt : String) (data : List Nat) (affDelta : List Nat) (ras : Bytes)
+    (setZ : Option (List Nat)) (ftrSets : List (Nat × Nat)) : Except Err MghOut :=
+  let shape3 := if shape.length < 3 then padShape3 shape else shape
+  match codeOfDtype dt with
+  | none => .error .mgh
+  | some code =>
+    match setDataShape shape3 with
+    | .error e => .error e
+    | .ok dims =>
+      let h0 : MghHdr := ⟨dims, code, affDelta, [0, 0, 0, 0, 0]⟩
+      match (match setZ with | none => Except.ok h0 | some zs => setZooms h0 zs) with
+      | .error e => .error e
+      | .ok h1 =>
+        let h2 := setFtr h1 ftrSets
+        let h3 := { h2 with delta := affDelta }
+        if getDataShape h3.dims ≠ shape3 then .error .hdrData else
+        match bytesPerVox code with
+        | none => .error .key
+        | some bpv =>
+          let file := writeMgh h3 ras bpv data
+          match readMgh file with
+          | .error e => .error e
+          | .ok (h', data') =>
+            .ok ⟨getZooms h1, file, getDataShape h'.dims, h'.code, getZooms h', h'.ftr, data'⟩
 
 end Nb.C19
